@@ -1,4 +1,364 @@
-//! E3: isolating runner (child processes) — filled in with C09/C16.
-pub fn child_main(_args: &[String]) -> ! {
-    std::process::exit(2)
+//! E3: isolating runner. Cases that may abort the process (stack overflow,
+//! allocation failure) are evaluated in child processes of this binary. The
+//! child publishes the index it is about to run in a shared mmap'd file, runs
+//! under a counting global allocator that refuses over-budget requests, and
+//! streams violations to the parent. A child death is attributed to the
+//! in-flight index and the parent restarts after it.
+
+use crate::engine::{Acc, Tier};
+use crate::props::Case;
+use serde_json::{json, Value};
+use std::alloc::{GlobalAlloc, Layout, System};
+use std::io::{BufRead, BufReader, Write};
+use std::process::{Command, Stdio};
+use std::sync::atomic::{AtomicBool, AtomicU64, AtomicUsize, Ordering};
+
+// ---------------------------------------------------------------- allocator
+
+pub struct Counting;
+
+static ARMED: AtomicBool = AtomicBool::new(false);
+static BUDGET: AtomicU64 = AtomicU64::new(u64::MAX);
+static LIVE: AtomicU64 = AtomicU64::new(0);
+static PEAK: AtomicU64 = AtomicU64::new(0);
+static REFUSED: AtomicU64 = AtomicU64::new(0);
+static SHM: AtomicUsize = AtomicUsize::new(0);
+
+unsafe impl GlobalAlloc for Counting {
+    unsafe fn alloc(&self, l: Layout) -> *mut u8 {
+        if ARMED.load(Ordering::Relaxed) && !self.admit(l.size() as u64) {
+            return std::ptr::null_mut();
+        }
+        System.alloc(l)
+    }
+    unsafe fn alloc_zeroed(&self, l: Layout) -> *mut u8 {
+        if ARMED.load(Ordering::Relaxed) && !self.admit(l.size() as u64) {
+            return std::ptr::null_mut();
+        }
+        System.alloc_zeroed(l)
+    }
+    unsafe fn dealloc(&self, p: *mut u8, l: Layout) {
+        if ARMED.load(Ordering::Relaxed) {
+            let s = l.size() as u64;
+            let _ = LIVE.fetch_update(Ordering::Relaxed, Ordering::Relaxed, |v| Some(v.saturating_sub(s)));
+        }
+        System.dealloc(p, l)
+    }
+    unsafe fn realloc(&self, p: *mut u8, l: Layout, new: usize) -> *mut u8 {
+        if ARMED.load(Ordering::Relaxed) {
+            if new > l.size() {
+                if !self.admit((new - l.size()) as u64) {
+                    return std::ptr::null_mut();
+                }
+            } else {
+                let s = (l.size() - new) as u64;
+                let _ = LIVE.fetch_update(Ordering::Relaxed, Ordering::Relaxed, |v| Some(v.saturating_sub(s)));
+            }
+        }
+        System.realloc(p, l, new)
+    }
+}
+
+impl Counting {
+    fn admit(&self, size: u64) -> bool {
+        let live = LIVE.fetch_add(size, Ordering::Relaxed) + size;
+        if live > BUDGET.load(Ordering::Relaxed) {
+            LIVE.fetch_sub(size, Ordering::Relaxed);
+            REFUSED.store(size.max(1), Ordering::Relaxed);
+            // publish for the parent: the process is about to abort in handle_alloc_error
+            let shm = SHM.load(Ordering::Relaxed);
+            if shm != 0 {
+                unsafe {
+                    std::ptr::write_volatile((shm as *mut u64).add(5), size.max(1));
+                    std::ptr::write_volatile((shm as *mut u64).add(6), live);
+                }
+            }
+            return false;
+        }
+        PEAK.fetch_max(live, Ordering::Relaxed);
+        true
+    }
+}
+
+/// Arm the allocator for one library call: at most `budget` live bytes above the current level.
+pub fn arm(budget: u64) {
+    LIVE.store(0, Ordering::Relaxed);
+    PEAK.store(0, Ordering::Relaxed);
+    REFUSED.store(0, Ordering::Relaxed);
+    BUDGET.store(budget, Ordering::Relaxed);
+    ARMED.store(true, Ordering::Relaxed);
+}
+
+/// Disarm and return the peak number of live bytes observed while armed.
+pub fn disarm() -> u64 {
+    ARMED.store(false, Ordering::Relaxed);
+    PEAK.load(Ordering::Relaxed)
+}
+
+pub fn in_child() -> bool {
+    SHM.load(Ordering::Relaxed) != 0
+}
+
+// ---------------------------------------------------------------- shared page
+
+const SHM_WORDS: usize = 16;
+// [0]=in-flight idx+1 (0 = none)  [1]=cases finished  [5]=refused request size  [6]=live bytes at refusal
+
+fn map_shared(path: &str, create: bool) -> *mut u64 {
+    use std::os::unix::io::AsRawFd;
+    let f = std::fs::OpenOptions::new().read(true).write(true).create(create).truncate(false).open(path).expect("open shm file");
+    if create {
+        f.set_len((SHM_WORDS * 8) as u64).expect("size shm");
+    }
+    unsafe {
+        let p = libc::mmap(std::ptr::null_mut(), SHM_WORDS * 8, libc::PROT_READ | libc::PROT_WRITE, libc::MAP_SHARED, f.as_raw_fd(), 0);
+        if p == libc::MAP_FAILED {
+            panic!("mmap failed");
+        }
+        p as *mut u64
+    }
+}
+
+// ---------------------------------------------------------------- child
+
+/// bsvmc child <ID> <tier> <space> <shm path>; indices arrive on stdin as "lo hi" ranges, one per line.
+pub fn child_main(args: &[String]) -> ! {
+    if args.len() < 4 {
+        std::process::exit(2);
+    }
+    let id = args[0].to_uppercase();
+    let tier = if args[1] == "thorough" { Tier::Thorough } else { Tier::Quick };
+    let space_name = args[2].clone();
+    let shm = map_shared(&args[3], false);
+    SHM.store(shm as usize, Ordering::Relaxed);
+    unsafe {
+        // safety nets: address space and core dumps
+        let lim = libc::rlimit { rlim_cur: 24 << 30, rlim_max: 24 << 30 };
+        libc::setrlimit(libc::RLIMIT_AS, &lim);
+        let nocore = libc::rlimit { rlim_cur: 0, rlim_max: 0 };
+        libc::setrlimit(libc::RLIMIT_CORE, &nocore);
+    }
+    // keep the pipe to the parent on a private fd; the library's own println!s go to /dev/null
+    let pipe_fd = unsafe { libc::dup(1) };
+    unsafe {
+        let devnull = libc::open(b"/dev/null\0".as_ptr() as *const libc::c_char, libc::O_WRONLY);
+        libc::dup2(devnull, 1);
+        libc::dup2(devnull, 2);
+    }
+    let mut pipe = unsafe { <std::fs::File as std::os::unix::io::FromRawFd>::from_raw_fd(pipe_fd) };
+    crate::engine::install_panic_hook();
+    let spaces = match crate::props::lookup(&id).and_then(|p| p.spaces) {
+        Some(mk) => mk(tier),
+        None => std::process::exit(2),
+    };
+    let sp = match spaces.into_iter().find(|s| s.name == space_name) {
+        Some(s) => s,
+        None => std::process::exit(2),
+    };
+    let stdin = std::io::stdin();
+    let mut ranges: Vec<(u64, u64)> = vec![];
+    for line in stdin.lock().lines() {
+        let line = line.unwrap_or_default();
+        let mut it = line.split_whitespace();
+        if let (Some(a), Some(b)) = (it.next(), it.next()) {
+            if let (Ok(a), Ok(b)) = (a.parse(), b.parse()) {
+                ranges.push((a, b));
+            }
+        }
+    }
+    let mut acc = Acc::new();
+    let mut finished: u64 = 0;
+    for (lo, hi) in ranges {
+        for idx in lo..hi {
+            unsafe { std::ptr::write_volatile(shm, idx + 1) };
+            let case = Case { space: &sp.name, idx, tier };
+            (sp.eval)(&case, &mut acc);
+            finished += 1;
+            unsafe {
+                std::ptr::write_volatile(shm.add(1), finished);
+                std::ptr::write_volatile(shm, 0);
+            }
+            if !acc.violations.is_empty() {
+                for (k, (n, vs)) in std::mem::take(&mut acc.violations) {
+                    for v in vs {
+                        let _ = writeln!(pipe, "V {}", json!({"key": k, "order": v.order, "case": v.case, "detail": v.detail, "n": n}));
+                    }
+                }
+            }
+        }
+    }
+    let summary = json!({
+        "evaluations": acc.evaluations, "transitions": acc.transitions, "traces": acc.traces,
+        "nontrivial": acc.n_nontrivial(), "states": acc.n_states(),
+        "outcomes": acc.outcomes.iter().collect::<Vec<_>>(),
+        "samples": acc.samples.iter().map(|s| json!([s.0, s.1])).collect::<Vec<_>>(),
+        "info": acc.info,
+    });
+    let _ = writeln!(pipe, "S {}", summary);
+    let _ = pipe.flush();
+    std::process::exit(0)
+}
+
+// ---------------------------------------------------------------- parent
+
+pub struct Death {
+    pub idx: u64,
+    pub reason: String,
+}
+
+pub struct IsoOutcome {
+    pub acc: Acc,
+    pub deaths: Vec<Death>,
+    pub done: u64,
+    pub unattributed: Vec<String>,
+}
+
+fn signal_name(sig: i32) -> String {
+    match sig {
+        6 => "SIGABRT".into(),
+        9 => "SIGKILL".into(),
+        11 => "SIGSEGV".into(),
+        7 => "SIGBUS".into(),
+        n => format!("signal {}", n),
+    }
+}
+
+struct ChunkResult {
+    acc: Acc,
+    deaths: Vec<Death>,
+    done: u64,
+    unattributed: Vec<String>,
+}
+
+/// Run [lo,hi) of `space` in a child; restart after each death.
+fn run_chunk(id: &str, tier: Tier, space: &str, lo: u64, hi: u64, worker: usize, max_deaths: usize) -> ChunkResult {
+    use std::os::unix::process::ExitStatusExt;
+    let exe = std::env::current_exe().expect("current_exe");
+    let shm_path = format!("/dev/shm/bsvmc-{}-{}.shm", std::process::id(), worker);
+    let shm = map_shared(&shm_path, true);
+    let mut res = ChunkResult { acc: Acc::new(), deaths: vec![], done: 0, unattributed: vec![] };
+    let mut cur = lo;
+    while cur < hi {
+        unsafe {
+            for w in 0..SHM_WORDS {
+                std::ptr::write_volatile(shm.add(w), 0);
+            }
+        }
+        let mut child = Command::new(&exe)
+            .args(["child", id, tier.name(), space, &shm_path])
+            .stdin(Stdio::piped())
+            .stdout(Stdio::piped())
+            .stderr(Stdio::null())
+            .spawn()
+            .expect("spawn child");
+        {
+            let mut si = child.stdin.take().unwrap();
+            let _ = writeln!(si, "{} {}", cur, hi);
+        }
+        let so = child.stdout.take().unwrap();
+        let mut got_summary = false;
+        for line in BufReader::new(so).lines() {
+            let line = match line {
+                Ok(l) => l,
+                Err(_) => break,
+            };
+            if let Some(rest) = line.strip_prefix("V ") {
+                if let Ok(v) = serde_json::from_str::<Value>(rest) {
+                    res.acc.violate(v["key"].as_str().unwrap_or("?").to_string(), v["order"].as_u64().unwrap_or(0), v["case"].clone(), v["detail"].as_str().unwrap_or("").to_string());
+                }
+            } else if let Some(rest) = line.strip_prefix("S ") {
+                if let Ok(v) = serde_json::from_str::<Value>(rest) {
+                    got_summary = true;
+                    res.acc.evaluations += v["evaluations"].as_u64().unwrap_or(0);
+                    res.acc.transitions += v["transitions"].as_u64().unwrap_or(0);
+                    res.acc.traces += v["traces"].as_u64().unwrap_or(0);
+                    res.acc.nontrivial_structural += v["nontrivial"].as_u64().unwrap_or(0);
+                    res.acc.states_structural += v["states"].as_u64().unwrap_or(0);
+                    if let Some(o) = v["outcomes"].as_array() {
+                        for h in o {
+                            if let Some(h) = h.as_u64() {
+                                res.acc.outcomes.insert(h);
+                            }
+                        }
+                    }
+                    if let Some(ss) = v["samples"].as_array() {
+                        for s in ss {
+                            let ord = s[0].as_u64().unwrap_or(0);
+                            let val = s[1].clone();
+                            res.acc.sample(ord, || val);
+                        }
+                    }
+                    if let Some(info) = v["info"].as_object() {
+                        for (k, n) in info {
+                            res.acc.bump(k, n.as_u64().unwrap_or(0));
+                        }
+                    }
+                }
+            }
+        }
+        let status = child.wait().expect("wait child");
+        let finished = unsafe { std::ptr::read_volatile(shm.add(1)) };
+        if status.success() && got_summary {
+            res.done += finished;
+            break;
+        }
+        let inflight = unsafe { std::ptr::read_volatile(shm) };
+        let refused = unsafe { std::ptr::read_volatile(shm.add(5)) };
+        let live = unsafe { std::ptr::read_volatile(shm.add(6)) };
+        let how = match status.signal() {
+            Some(s) => signal_name(s),
+            None => format!("exit code {:?}", status.code()),
+        };
+        if inflight == 0 {
+            res.unattributed.push(format!("child for {}/{} [{}..{}) died ({}) with no case in flight", id, space, cur, hi, how));
+            break;
+        }
+        let idx = inflight - 1;
+        let reason = if refused > 0 {
+            format!("abort: allocation request of {} bytes refused (live {} bytes > per-case budget), {}", refused, live, how)
+        } else {
+            format!("process died: {}", how)
+        };
+        res.deaths.push(Death { idx, reason });
+        // counters of the finished cases before the death are lost with the child; count the cases
+        res.done += finished + 1;
+        res.acc.evaluations += finished + 1;
+        cur = idx + 1;
+        if res.deaths.len() >= max_deaths {
+            break;
+        }
+    }
+    let _ = std::fs::remove_file(&shm_path);
+    res
+}
+
+/// Evaluate exactly [lo,hi) in one child (used by replay).
+pub fn run_range_isolated(id: &str, tier: Tier, space: &str, lo: u64, hi: u64) -> IsoOutcome {
+    let r = run_chunk(id, tier, space, lo, hi, 9999, 4);
+    IsoOutcome { acc: r.acc, deaths: r.deaths, done: r.done, unattributed: r.unattributed }
+}
+
+/// Evaluate indices [0,n) of a space in child processes, `workers` in parallel.
+pub fn run_space_isolated(id: &str, tier: Tier, space: &str, n: u64, workers: usize, max_deaths_per_worker: usize) -> IsoOutcome {
+    let workers = workers.max(1).min(n.max(1) as usize);
+    let per = (n + workers as u64 - 1) / workers as u64;
+    let mut out = IsoOutcome { acc: Acc::new(), deaths: vec![], done: 0, unattributed: vec![] };
+    let results: Vec<ChunkResult> = std::thread::scope(|s| {
+        let hs: Vec<_> = (0..workers)
+            .map(|w| {
+                let lo = (w as u64 * per).min(n);
+                let hi = ((w as u64 + 1) * per).min(n);
+                s.spawn(move || run_chunk(id, tier, space, lo, hi, w, max_deaths_per_worker))
+            })
+            .collect();
+        hs.into_iter().map(|h| h.join().expect("iso worker")).collect()
+    });
+    for r in results {
+        out.acc.merge(r.acc);
+        out.deaths.extend(r.deaths);
+        out.done += r.done;
+        out.unattributed.extend(r.unattributed);
+    }
+    out.deaths.sort_by_key(|d| d.idx);
+    out
 }
